@@ -3,6 +3,9 @@
 use super::{AckedIndexer, Index, VoteResult};
 use crate::{DefaultHashBuilder, HashSet};
 
+#[cfg(tikv_raft_rs_verif)]
+use crate::verif_shim::SetIter as Iter;
+#[cfg(not(tikv_raft_rs_verif))]
 use std::collections::hash_set::Iter;
 use std::fmt::Formatter;
 use std::mem::MaybeUninit;
